@@ -81,7 +81,11 @@ Record auT := mkau {
   first_ctx : Z                (* client: first context seen (for the replaying deviant) *)
 }.
 
-Record msT := mkms { tickets : Z; hb_got : list (list Z) }.
+Record msT := mkms {
+  tickets : Z;
+  hb_got : list (list Z);    (* payloads handed to heartbeat_response_callback *)
+  hb_req : list (list Z)     (* ghost: payloads of the heartbeat requests write_heartbeat accepted *)
+}.
 
 Record ep := mkep { cf : cfgT; ks : ksT; io : ioT; au : auT; ms : msT }.
 
@@ -164,8 +168,11 @@ Definition pop_ctx (me : ep) (c : Z) : ep :=
 Definition record_chain (me : ep) (c ch : Z) : ep :=
   let a := au me in set_au me (mkau (pending a) (next_ctx a) ch (accepted a ++ [c]) (first_ctx a)).
 
-Definition add_ticket (me : ep) : ep := set_ms me (mkms (tickets (ms me) + 1) (hb_got (ms me))).
-Definition add_hb (me : ep) (p : list Z) : ep := set_ms me (mkms (tickets (ms me)) (hb_got (ms me) ++ [p])).
+Definition add_ticket (me : ep) : ep := set_ms me (mkms (tickets (ms me) + 1) (hb_got (ms me)) (hb_req (ms me))).
+Definition add_hb (me : ep) (p : list Z) : ep :=
+  set_ms me (mkms (tickets (ms me)) (hb_got (ms me) ++ [p]) (hb_req (ms me))).
+Definition note_hb_req (me : ep) (p : list Z) : ep :=
+  set_ms me (mkms (tickets (ms me)) (hb_got (ms me)) (hb_req (ms me) ++ [p])).
 
 Definition note_ctx (me : ep) (c : Z) : ep :=
   let a := au me in
@@ -200,8 +207,11 @@ Definition on_heartbeat (me : ep) (b : list Z) : option (ep * list rec) :=
         if ty =? 1 then
           if negb (hb_recv (cf me)) then None
           else if zlen pad <? 16 then Some (me, [])
-          else Some (me, map (fun f => emit me (MHB f))
-                             (fragments (recsize (cf me)) (hb_write 2 payload (padding 16))))
+          else
+            (* a HeartbeatMessage is never fragmented (9b89f7b): a response that does not fit into
+               one record of this endpoint is not sent (the request is treated as too large) *)
+            let resp := hb_write 2 payload (padding 16) in
+            if recsize (cf me) <? zlen resp then Some (me, []) else Some (me, [emit me (MHB resp)])
         else if (ty =? 2) && hb_cb (cf me) then Some (add_hb me payload, [])
         else Some (me, [])
     end
@@ -263,7 +273,8 @@ Fixpoint rloop (v13 : bool) (me : ep) (inc : list rec) : resT :=
             let '(me2, inc2, em, c) := rloop v13 me1 inc' in (me2, inc2, out ++ em, c)
         end
     | MNST =>
-        if v13 then (add_ticket me, inc', [], 0) else die me inc' 10
+        (* only a TLS 1.3 CLIENT expects tickets (df198c5: a server answers unexpected_message) *)
+        if v13 && is_cl (cf me) then (add_ticket me, inc', [], 0) else die me inc' 10
     | MCertReq ctx wf =>
         if v13 && is_cl (cf me) && pha_key (cf me) then
           if negb wf then die me inc' 50
@@ -355,8 +366,11 @@ Definition act (s : st) (o : op) : st * outT :=
   | OHeartbeat payload padlen =>
       if cl then same 3000
       else if negb (hb_sup (cf me)) || negb (hb_send (cf me)) then same 2000
-      else sends me (map (fun f => emit me (MHB f))
-                         (fragments (recsize (cf me)) (hb_write 1 payload (padding padlen)))) 0
+      else
+        (* 9b89f7b: a request longer than recordSize is refused (ValueError), never fragmented *)
+        let m := hb_write 1 payload (padding padlen) in
+        if recsize (cf me) <? zlen m then same 2000
+        else sends (note_hb_req me payload) [emit me (MHB m)] 0
   | OTickets k =>
       if cl || negb v13 || is_cl (cf me) then same 2000
       else sends me (repeat (emit me MNST) (Z.to_nat k)) 0
@@ -403,7 +417,7 @@ Definition exec (s : st) (ops : list (bool * op)) : st := fst (run s ops).
 Definition ks0 := mkks 0 0 0 0 0 0.
 Definition io0 := mkio false [] [] [] false [].
 Definition au0 := mkau [] 1 0 [] 0.
-Definition ms0 := mkms 0 [].
+Definition ms0 := mkms 0 [] [].
 Definition ep0 (c : cfgT) : ep := mkep c ks0 io0 au0 ms0.
 
 (* [nst] NewSessionTicket records are already in flight towards the client when the handshake ends *)
